@@ -285,7 +285,7 @@ def core_skips(repo, res):
     from vlib import rules_skips as SK, tables
 
     n = SK.skips_rule(repo, res, tables.load("skips")["row"], only=C02_CORES)
-    res.floor("SKIPS", n, 12)
+    res.floor("SKIPS", n, 5)
 
 
 def run(repo, res, tier):
